@@ -3,6 +3,7 @@ CONSTANTS
   N = 1
   Subs = {1}
   TaskOf <- T_1x2
+  Follow <- F_none
   Lazy = TRUE
   Detached = TRUE
   WaitAll = TRUE
